@@ -613,17 +613,21 @@ class SchemaValidator:
                         ]
 
                     split_ref = operation["appends_objects_to"].split(".")
-                    edge_collection_details = (
-                        self._resolve_type_from_object_promise_ref(
-                            object_promise_ref=split_ref[0],
-                            path_from_ref=split_ref[1:],
-                            resolution_context_thread_group_ref=action["context"]
-                            if utils.is_template_entity_reference(
-                                action, "context", "thread_group"
+                    try:
+                        edge_collection_details = (
+                            self._resolve_type_from_object_promise_ref(
+                                object_promise_ref=split_ref[0],
+                                path_from_ref=split_ref[1:],
+                                resolution_context_thread_group_ref=action["context"]
+                                if utils.is_template_entity_reference(
+                                    action, "context", "thread_group"
+                                )
+                                else None,
                             )
-                            else None,
                         )
-                    )
+                    except Exception:
+                        # the path cannot be resolved to a type
+                        edge_collection_details = None
                     if (
                         not isinstance(edge_collection_details, TypeDetails)
                         or edge_collection_details.item_type != "OBJECT"
@@ -2042,6 +2046,9 @@ class SchemaValidator:
                 object_type_ref=object_promise["object_type"],
                 attribute_path=path_from_ref,
             )
+            if type_details is None:
+                return None
+
             if is_list_of_object_promises:
                 if type_details.is_list:
                     raise Exception("nested list types are not supported")
